@@ -154,7 +154,7 @@ func runC13(c *Ctx) {
 			return ok && typeShort(ta.AssertedType) == "[]interface{}" && c.Path(ta.X, env) == vpath
 		}})
 		c.CheckGuard("C13.G1", key+":array-non-empty", f, nil, cmpReject("len(array) == 0 rejected", token.EQL, func(s string) bool {
-			return s == "len("+vpath+".([]interface{})#0)"
+			return strings.HasPrefix(s, "len(") && strings.Contains(s, vpath) && strings.HasSuffix(s, "#0)")
 		}, pathIs("0")))
 	}
 	idRules := func(key string, entry *ssa.Function, idPath pathPred, needNonEmpty bool) {
